@@ -788,6 +788,11 @@ func (p *pp) printArg(arg interface{}, verb rune) {
 
 			if f.CanInterface() {
 				p.arg = f.Interface()
+				// f may be of interface kind: consult the registry with
+				// the dynamic type of the value that is dispatched, too.
+				if safeTypeRegistry[reflect.TypeOf(p.arg)] {
+					defer p.startSafeOverride().restore()
+				}
 				if _, ok := p.arg.(i.SafeValue); ok {
 					defer p.startSafeOverride().restore()
 				}
@@ -831,6 +836,12 @@ func (p *pp) printValue(value reflect.Value, verb rune, depth int) {
 
 		if value.CanInterface() {
 			p.arg = value.Interface()
+			// value may be of interface kind (an element of []interface{},
+			// a map value): consult the registry with the dynamic type of
+			// the value that is dispatched, too.
+			if safeTypeRegistry[reflect.TypeOf(p.arg)] {
+				defer p.startSafeOverride().restore()
+			}
 			if _, ok := p.arg.(i.SafeValue); ok {
 				defer p.startSafeOverride().restore()
 			}
